@@ -623,14 +623,13 @@ fn find_tsig_algorithm_or_write_error(
         Some(algorithm)
     } else {
         response.set_rcode(Rcode::NOTAUTH);
-        response
-            .set_tsig(
-                writer::TsigMode::Unsigned {
-                    algorithm: tsig_rr.algorithm().to_owned(),
-                },
-                PreparedTsigRr::new_from_read(tsig_rr, now, TSIG_FUDGE, ExtendedRcode::BADKEY),
-            )
-            .unwrap();
+        set_tsig_or_truncate(
+            response,
+            writer::TsigMode::Unsigned {
+                algorithm: tsig_rr.algorithm().to_owned(),
+            },
+            PreparedTsigRr::new_from_read(tsig_rr, now, TSIG_FUDGE, ExtendedRcode::BADKEY),
+        );
         None
     }
 }
@@ -655,14 +654,13 @@ fn find_tsig_key_or_write_error<'k>(
         Some(key)
     } else {
         response.set_rcode(Rcode::NOTAUTH);
-        response
-            .set_tsig(
-                writer::TsigMode::Unsigned {
-                    algorithm: tsig_rr.algorithm().to_owned(),
-                },
-                PreparedTsigRr::new_from_read(tsig_rr, now, TSIG_FUDGE, ExtendedRcode::BADKEY),
-            )
-            .unwrap();
+        set_tsig_or_truncate(
+            response,
+            writer::TsigMode::Unsigned {
+                algorithm: tsig_rr.algorithm().to_owned(),
+            },
+            PreparedTsigRr::new_from_read(tsig_rr, now, TSIG_FUDGE, ExtendedRcode::BADKEY),
+        );
         None
     }
 }
@@ -724,13 +722,26 @@ fn verify_tsig_and_write_tsig_rr(
         };
 
     response.set_rcode(rcode);
-    response
-        .set_tsig(
-            mode,
-            PreparedTsigRr::new_from_read(tsig_rr, now, TSIG_FUDGE, tsig_err),
-        )
-        .unwrap();
-    rcode == Rcode::NOERROR
+    let tsig_added = set_tsig_or_truncate(
+        response,
+        mode,
+        PreparedTsigRr::new_from_read(tsig_rr, now, TSIG_FUDGE, tsig_err),
+    );
+    tsig_added && rcode == Rcode::NOERROR
+}
+
+/// Adds a TSIG RR to the response, returning whether this succeeded.
+/// Space for the TSIG RR may be lacking when the response is limited to
+/// a small UDP payload and the question and the TSIG key and algorithm
+/// names are long. In that case, we cannot include the TSIG RR; we set
+/// the TC bit so that the client retries over TCP, where it will fit.
+fn set_tsig_or_truncate(response: &mut Writer, mode: writer::TsigMode, rr: PreparedTsigRr) -> bool {
+    if response.set_tsig(mode, rr).is_ok() {
+        true
+    } else {
+        response.set_tc(true);
+        false
+    }
 }
 
 ////////////////////////////////////////////////////////////////////////
